@@ -425,6 +425,11 @@ CLAUSES = [
     ),
 ]
 
+from ..names_check import names_clause  # noqa: E402
+
+if names_clause("C17") is not None:
+    CLAUSES.append(names_clause("C17"))
+
 PROPERTY = Property(
     id="C17",
     level="exploration",
